@@ -36,6 +36,9 @@
 #include "libfive/render/brep/settings.hpp"
 #include "libfive/render/brep/progress.hpp"
 #include "libfive/render/brep/dual.hpp"
+#include "libfive/render/brep/contours.hpp"
+#include "libfive/render/brep/vol/vol_worker_pool.hpp"
+#include "libfive/render/brep/brep.hpp"
 #include "libfive/render/brep/dc/dc_worker_pool.hpp"
 #include "libfive/render/brep/dc/dc_mesher.hpp"
 #include "libfive/render/brep/simplex/simplex_worker_pool.hpp"
@@ -192,6 +195,64 @@ static bool mesh_closed(const Mesh& m) {
     }
     for (auto& kv : edges) if (!edges.count({kv.first.second, kv.first.first})) return false;
     return !m.branes.empty();
+}
+
+// C03 / C04: combinatorial and geometric audit of a triangle mesh
+struct MeshAudit {
+    long tris = 0, verts = 0, degenerate = 0, bad_index = 0, unreferenced = 0, unbalanced_edges = 0, nonmanifold_edges = 0;
+    long outside_region = 0; double max_field = 0; long wind_pts = 0, wind_bad = 0; std::string first_bad;
+};
+static double solid_angle_sum(const Mesh& m, const Eigen::Vector3d& p) {
+    double total = 0;
+    for (auto& t : m.branes) {
+        Eigen::Vector3d a = m.verts[t(0)].cast<double>() - p, b = m.verts[t(1)].cast<double>() - p, c = m.verts[t(2)].cast<double>() - p;
+        double la = a.norm(), lb = b.norm(), lc = c.norm();
+        double num = a.dot(b.cross(c));
+        double den = la * lb * lc + a.dot(b) * lc + b.dot(c) * la + c.dot(a) * lb;
+        total += 2.0 * std::atan2(num, den);
+    }
+    return total / (4.0 * M_PI);
+}
+static MeshAudit audit_mesh(const Mesh& m, Evaluator& ev, const Region<3>& rg, double minfeat, unsigned seed) {
+    MeshAudit a;
+    a.tris = m.branes.size(); a.verts = m.verts.size();
+    std::vector<char> used(m.verts.size(), 0);
+    std::map<std::pair<uint32_t, uint32_t>, int> dir;
+    for (auto& t : m.branes) {
+        bool ok = true;
+        for (int e = 0; e < 3; ++e) if (t(e) >= m.verts.size() || t(e) == 0) { ok = false; }
+        if (!ok) { ++a.bad_index; continue; }
+        if (t(0) == t(1) || t(1) == t(2) || t(0) == t(2)) ++a.degenerate;
+        for (int e = 0; e < 3; ++e) { used[t(e)] = 1; ++dir[{t(e), t((e + 1) % 3)}]; }
+    }
+    for (size_t i = 1; i < used.size(); ++i) if (!used[i]) ++a.unreferenced;
+    for (auto& kv : dir) {
+        auto r = dir.find({kv.first.second, kv.first.first});
+        int back = r == dir.end() ? 0 : r->second;
+        if (kv.second != back) ++a.unbalanced_edges;
+        if (kv.second > 1) ++a.nonmanifold_edges;
+    }
+    for (size_t i = 1; i < m.verts.size(); ++i) {
+        Eigen::Vector3f v = m.verts[i];
+        for (int k = 0; k < 3; ++k) if (v(k) < rg.lower(k) - 1e-4 || v(k) > rg.upper(k) + 1e-4) { ++a.outside_region; break; }
+        if (used[i]) a.max_field = std::max(a.max_field, (double)std::fabs(ev.value(v)));
+    }
+    std::mt19937 rng(seed);
+    std::uniform_real_distribution<double> d01(0.0, 1.0);
+    for (int k = 0; k < 60; ++k) {
+        Eigen::Vector3d p;
+        for (int c = 0; c < 3; ++c) p(c) = rg.lower(c) + (rg.upper(c) - rg.lower(c)) * (0.04 + 0.92 * d01(rng));
+        float f = ev.value(p.cast<float>());
+        if (!(std::fabs(f) > 1.5 * minfeat)) continue;
+        ++a.wind_pts;
+        double w = solid_angle_sum(m, p);
+        double want = f < 0 ? 1.0 : 0.0;
+        if (std::fabs(std::fabs(w) - want) > 0.2) {
+            if (!a.wind_bad) { std::ostringstream o; o << "p=(" << p.x() << "," << p.y() << "," << p.z() << ") f=" << f << " winding=" << w; a.first_bad = o.str(); }
+            ++a.wind_bad;
+        }
+    }
+    return a;
 }
 
 struct Ctx {
@@ -1171,6 +1232,103 @@ int main(int argc, char** argv) {
                 o << " ms=" << ms << " counts=";
                 for (int i = 0; i < N_SCHED_SITES; ++i) o << (i ? "," : "") << g_site_count[i].load();
                 out(o.str());
+            }
+            else if (c == "mesh") {
+                // mesh h alg workers minfeat lx ly lz ux uy uz maxerr seed
+                Tree tr = H(t[1]);
+                BRepSettings st;
+                int alg = std::stoi(t[2]);
+                st.alg = alg == 0 ? DUAL_CONTOURING : alg == 1 ? ISO_SIMPLEX : HYBRID;
+                st.workers = (unsigned)std::stoul(t[3]);
+                st.min_feature = of_hex32(t[4]);
+                Region<3> rg({of_hex32(t[5]), of_hex32(t[6]), of_hex32(t[7])}, {of_hex32(t[8]), of_hex32(t[9]), of_hex32(t[10])});
+                st.max_err = of_hex32(t[11]);
+                unsigned seed = (unsigned)std::stoul(t[12]);
+                int use_vol = t.size() > 13 ? std::stoi(t[13]) : 0;
+                Root<VolTree> vol;
+                if (use_vol) {
+                    // acceleration volume tree, built at a coarser resolution over the same region
+                    BRepSettings vs; vs.workers = st.workers; vs.min_feature = st.min_feature * 2;
+                    vol = VolWorkerPool::build(tr, rg, vs);
+                    st.vol = vol.get();
+                }
+                auto mesh = Mesh::render(tr, rg, st);
+                if (!mesh) { out("MA null"); }
+                else {
+                    Evaluator ev(tr);
+                    MeshAudit a = audit_mesh(*mesh, ev, rg, st.min_feature, seed);
+                    std::ostringstream o;
+                    o << "MA tris=" << a.tris << " verts=" << a.verts << " degenerate=" << a.degenerate << " bad_index=" << a.bad_index
+                      << " unreferenced=" << a.unreferenced << " unbalanced=" << a.unbalanced_edges << " nonmanifold=" << a.nonmanifold_edges
+                      << " outside=" << a.outside_region << " maxfield=" << a.max_field / st.min_feature
+                      << " wind_pts=" << a.wind_pts << " wind_bad=" << a.wind_bad << " info=" << (a.first_bad.empty() ? "-" : a.first_bad);
+                    out(o.str());
+                }
+            }
+            else if (c == "contour") {
+                // contour h workers minfeat lx ly ux uy z seed
+                Tree tr = H(t[1]);
+                BRepSettings st;
+                st.workers = (unsigned)std::stoul(t[2]);
+                st.min_feature = of_hex32(t[3]);
+                float zz = of_hex32(t[8]);
+                Region<2> rg({of_hex32(t[4]), of_hex32(t[5])}, {of_hex32(t[6]), of_hex32(t[7])}, Region<2>::Perp(zz));
+                unsigned seed = (unsigned)std::stoul(t[9]);
+                auto cs = Contours::render(tr, rg, st);
+                if (!cs) { out("CA null"); }
+                else {
+                    Evaluator ev(tr);
+                    long open = 0, npts = 0, outside = 0; double maxfield = 0;
+                    std::map<std::pair<float, float>, int> ends;
+                    for (auto& c2 : cs->contours) {
+                        if (c2.size() < 2 || c2.front() != c2.back()) ++open;
+                        for (auto& v : c2) {
+                            ++npts;
+                            if (v.x() < rg.lower.x() - 1e-4 || v.x() > rg.upper.x() + 1e-4 || v.y() < rg.lower.y() - 1e-4 || v.y() > rg.upper.y() + 1e-4) ++outside;
+                            maxfield = std::max(maxfield, (double)std::fabs(ev.value({v.x(), v.y(), zz})));
+                        }
+                    }
+                    std::mt19937 rng(seed);
+                    std::uniform_real_distribution<double> d01(0.0, 1.0);
+                    long wpts = 0, wbad = 0; int sign = 0; std::string info;
+                    for (int k = 0; k < 80; ++k) {
+                        double px = rg.lower.x() + (rg.upper.x() - rg.lower.x()) * (0.03 + 0.94 * d01(rng));
+                        double py = rg.lower.y() + (rg.upper.y() - rg.lower.y()) * (0.03 + 0.94 * d01(rng));
+                        float f = ev.value({(float)px, (float)py, zz});
+                        if (!(std::fabs(f) > 2.5 * st.min_feature)) continue;
+                        double w = 0;
+                        for (auto& c2 : cs->contours) for (size_t i = 0; i + 1 < c2.size(); ++i) {
+                            double ax = c2[i].x() - px, ay = c2[i].y() - py, bx = c2[i + 1].x() - px, by = c2[i + 1].y() - py;
+                            w += std::atan2(ax * by - ay * bx, ax * bx + ay * by);
+                        }
+                        w /= 2 * M_PI;
+                        long wi = std::lround(w);
+                        ++wpts;
+                        bool bad = std::fabs(w - wi) > 0.2;
+                        if (f > 0) { if (wi != 0) bad = true; }
+                        else { if (wi != 1 && wi != -1) bad = true; else if (sign == 0) sign = (int)wi; else if (sign != wi) bad = true; }
+                        if (bad) { if (!wbad) { std::ostringstream o; o << "p=(" << px << "," << py << ") f=" << f << " winding=" << w; info = o.str(); } ++wbad; }
+                    }
+                    std::ostringstream o;
+                    o << "CA contours=" << cs->contours.size() << " open=" << open << " pts=" << npts << " outside=" << outside
+                      << " maxfield=" << maxfield / st.min_feature << " wind_pts=" << wpts << " wind_bad=" << wbad << " info=" << (info.empty() ? "-" : info);
+                    out(o.str());
+                }
+            }
+            else if (c == "collect") {
+                // collect nverts (a b)* : Contours::collect on one segment soup; vertex i sits at (i, 0)
+                int nv = std::stoi(t[1]);
+                std::atomic<uint32_t> counter(1);
+                std::vector<PerThreadBRep<2>> breps;
+                breps.emplace_back(PerThreadBRep<2>(counter));
+                for (int i = 1; i <= nv; ++i) breps[0].pushVertex(Eigen::Vector2f((float)i, 0.0f));
+                for (size_t k = 2; k + 1 < t.size(); k += 2)
+                    breps[0].branes.push_back({(uint32_t)std::stoul(t[k]), (uint32_t)std::stoul(t[k + 1])});
+                Contours cs;
+                cs.collect(breps);
+                std::string o = "CC";
+                for (auto& c2 : cs.contours) { o += " |"; for (auto& v : c2) o += " " + std::to_string((long)std::lround(v.x())); }
+                out(o);
             }
             else if (c == "ivcheck") {
                 // ivcheck h lx ly lz ux uy uz exact(0/1) : C02's statement on one expression and box
